@@ -36,8 +36,14 @@ pub fn gen(seed: u64, _tier: Tier) -> ScenarioSpec {
     if rng.chance(4, 5) {
         rec.end = EndKind::Single;
     }
+    let finished = rec.end != EndKind::None;
     let mut spec = gen::base_spec(P, "S1", seed, rec);
     spec.stream = gen::gen_stream(&mut rng, 1200, false);
+    // the same fields must come out of a skip-frames read (finished files only) and with hashing on
+    if finished && rng.chance(1, 3) {
+        spec.opts.skip_frames = true;
+    }
+    spec.opts.compute_hash = rng.chance(1, 4);
     spec
 }
 
@@ -339,7 +345,9 @@ pub fn run(spec: &ScenarioSpec, ctx: &mut Ctx) -> Result<(), Violation> {
     ctx.probe_if(m.ports.iter().any(|p| p.ptype == 2), "demo player");
     ctx.probe_if(m.ports.windows(2).any(|w| w[1].port > w[0].port + 1), "gap between occupied ports");
     ctx.probe_if(spec.recorder.teams, "teams on");
-    let Some(game) = s1_read(P, spec, &m, ctx, false)? else { return Ok(()) };
+    ctx.shape("opts", spec.opts.skip_frames as u64 | (spec.opts.compute_hash as u64) << 1);
+    ctx.probe_if(spec.opts.skip_frames, "Game Start/End read with skip_frames");
+    let Some(game) = s1_read(P, spec, &m, ctx, true)? else { return Ok(()) };
     check_start_end(P, &m, &spec.recorder, &game, ctx)?;
     ctx.rep.nontrivial = true;
     Ok(())
